@@ -301,6 +301,27 @@ pub fn boundary_families(full: bool) -> Vec<(String, String)> {
             }
         }
     }
+    // an indicator as the last thing on its line, the node on the following lines, in the three break styles
+    for brk in ["\n", "\r\n", "\r"] {
+        for ind in ["?", "? ", "?\t", "? # c", "-", "- ", "- # c", "k:", "k: # c", "? a\n:", "- ?", "- k:", "? -"] {
+            let ind = ind.replace('\n', brk);
+            push("bf:indicator-eol", format!("{ind}{brk}  a{brk}"));
+            push("bf:indicator-eol-value", format!("{ind}{brk}  a{brk}: b{brk}"));
+            push("bf:indicator-eol-seq", format!("{ind}{brk}  - a{brk}  - b{brk}"));
+            push("bf:indicator-eol-map", format!("{ind}{brk}  x: y{brk}  z: w{brk}"));
+            push("bf:indicator-eol-quoted", format!("{ind}{brk}  \"a{brk}   b\"{brk}"));
+            push("bf:indicator-eol-block", format!("{ind}{brk}  |{brk}   t{brk}"));
+        }
+    }
+    // flow keys that span lines with the ':' about 1024 characters after the start of the key
+    for d in [990usize, 1010, 1020, 1022, 1023, 1024, 1025, 1030, 1060] {
+        for b in [1usize, 5, 20, 40] {
+            let pad = " ".repeat(d.saturating_sub(b + 3));
+            push("bf:flowkey-span", format!("{{\"k\"{}{pad}: v, a: b}}\n", "\n".repeat(b)));
+            push("bf:flowkey-span-seq", format!("[\"k\"{}{pad}, a: b]\n", "\n".repeat(b)));
+            push("bf:flowkey-span-plain", format!("{{k{}{pad}: v}}\n", "\n".repeat(b)));
+        }
+    }
     // inputs ending after every token kind, with and without final break
     for t in ["a", "- a", "- ", "-", "k:", "k: v", "? k", "? ", ": v", "[a", "[a,", "[a]", "{a", "{a: b", "{a: b}", "&a", "&a b", "*a", "!t", "!!str a", "|", ">", "|+", "|-", ">2", "'a'", "'a", "\"a\"", "\"a", "\"a\\", "---", "--- a", "...", "%YAML 1.2", "%TAG ! x", "# c", "a #c", "a:", "a: |", "- |", "- >-", "k: |2", "k: &a", "k: !t", "k: *a"] {
         push("bf:ending", t.to_string());
